@@ -33,8 +33,11 @@ func FromOCI(ctx context.Context, image containerregistrypkgv1.Image) (
 
 	for {
 		hdr, err := tarReader.Next()
-		if err != nil && errors.Is(err, io.EOF) {
-			break
+		if err != nil {
+			if errors.Is(err, io.EOF) {
+				break
+			}
+			return nil, fmt.Errorf("read file header from layer: %w", err)
 		}
 
 		path, err := stripOCIPathPrefix(hdr.Name)
